@@ -525,6 +525,7 @@ class OdeSystem(object):
         self.__tf = D.ar_numpy.asarray(t[1], **self.__array_con_kwargs)
         self.__method = integrators.RK45CKSolver
         self.integrator = None
+        self.__integration_target = None
         self.__dt = D.ar_numpy.asarray(dt, **self.__array_con_kwargs)
         self.__dt0 = self.dt
 
@@ -668,7 +669,10 @@ class OdeSystem(object):
     @dt.setter
     def dt(self, new_dt):
         self.__dt = D.ar_numpy.asarray(new_dt, **self.__array_con_kwargs)
-        self.__fix_dt_dir(self.tf, self.t0)
+        if self.__integration_target is not None and self.__integration_target != self.__t[self.counter]:
+            self.__fix_dt_dir(self.__integration_target, self.__t[self.counter])
+        else:
+            self.__fix_dt_dir(self.tf, self.t0)
         return self.__dt
 
     @property
@@ -969,6 +973,8 @@ class OdeSystem(object):
                     category=RuntimeWarning)
 
         self.__fix_dt_dir(tf, self.__t[self.counter])
+        __outer_integration_target = self.__integration_target
+        self.__integration_target = tf
 
         if D.ar_numpy.abs(self.dt) > D.ar_numpy.abs(tf - self.__t[self.counter]):
             self.dt = D.ar_numpy.abs(tf - self.__t[self.counter]) * 0.5
@@ -1096,6 +1102,7 @@ class OdeSystem(object):
                                                          (etypes.FailedIntegration, KeyboardInterrupt)):
                 self.__int_status = 1
         finally:
+            self.__integration_target = __outer_integration_target
             if eta:
                 tqdm_progress_bar.close()
             self.__trim_soln_space()
